@@ -15,6 +15,7 @@ import glob
 import itertools
 import json
 import os
+import sys
 import random
 import re
 import shutil
@@ -127,6 +128,8 @@ def check(ctx, build=None):
 
     def viol(what, inp, expected, observed):
         nonlocal found
+        if os.environ.get("VERIF_DEBUG"):
+            sys.stderr.write("debug: %s %s\n" % (what, json.dumps(observed)[:300]))
         if not found:
             found = True
             ctx.violation("counterexample", what, inp, expected=expected, observed=observed)
@@ -257,6 +260,14 @@ func w3() uint64 {
 	var v Square = mkSquare(5)
 	return twice(v, 1) + measure(v)
 }
+
+func takesAny(x interface{}) uint64 {
+	return 1
+}
+
+func w4() uint64 {
+	return takesAny(uint64(3)) + takesAny(mkSquare(2))
+}
 """
         # ---- calibration of the arity oracle on the repository's own output files, then types nested in types (an array type
         #      inside a slice, map or make must stay ONE argument of the outer constructor)
@@ -312,7 +323,10 @@ func w3() uint64 {
         # ---- logging calls where an EXPRESSION is needed (goose prints a logging call as a comment)
         lsrc = """package p
 
-import "log"
+import (
+	"fmt"
+	"log"
+)
 
 func w0() uint64 {
 	var acc uint64 = 0
@@ -343,6 +357,22 @@ func w2() uint64 {
 		break
 	}
 	return 4
+}
+
+func w3() uint64 {
+	g := func() (int, error) {
+		return fmt.Println("x")
+	}
+	g()
+	return 6
+}
+
+func w4() uint64 {
+	g := func() {
+		log.Println("only")
+	}
+	g()
+	return 7
 }
 """
         open(os.path.join(scratch, "logpos.go"), "w").write(lsrc)
